@@ -232,6 +232,7 @@ def function_call_scope(
             try:
                 binding = provided_scope.get_binding(param.name)
                 param_scope.append(binding)
+                param_scope.supplied.add(id(binding))
                 continue
             except KeyError:
                 pass
@@ -252,14 +253,22 @@ def function_call_scope(
         if isinstance(arg_value, Identifier) and base_scopes:
             set_resolution_context(arg_value, base_scopes)
             arg_value = arg_value.value
-        param_scope.append(Binding(name=parameters.name, value=arg_value))
+        positional = Binding(name=parameters.name, value=arg_value)
+        param_scope.append(positional)
+        param_scope.supplied.add(id(positional))
     else:
         return None
 
     scope_chain = tuple(list(base_scopes) + [param_scope])
     for item in param_scope:
         if isinstance(item, Binding) and isinstance(item.value, NixExpression):
-            set_resolution_context(item.value, scope_chain)
+            # A supplied argument is evaluated at the call site; a default sees
+            # the other parameters.
+            if id(item) in param_scope.supplied:
+                if base_scopes:
+                    set_resolution_context(item.value, base_scopes)
+            else:
+                set_resolution_context(item.value, scope_chain)
     return param_scope
 
 
